@@ -43,7 +43,7 @@ TAGS = ["weight", "bias", "norm", "output"]
 
 def phases(tier: str) -> List[Dict[str, Any]]:
     if tier == "quick":
-        return [{"name": "hist", "runs": 40000, "batch": 250, "timeout": 300, "wall": 120}]
+        return [{"name": "hist", "runs": 24000, "batch": 250, "timeout": 300, "wall": 120}]
     return [{"name": "hist", "runs": 400000, "batch": 1000, "timeout": 1800, "wall": 1500}]
 
 
